@@ -471,13 +471,16 @@ theorem pushNone_refines : ∀ (b b' : B), WFH b → NoDictKey b → pushNone b 
 builder has no children) -/
 theorem DictVals_pushH (ext : Ext) {vals vals' : B} {index : List String} {s : String} (hw : WFH vals)
     (hd : DictVals vals index) (h : pushScalar ext vals (.str s) = .ok vals') : DictVals vals' (index ++ [s]) := by
-  intro hu
-  have hu0 : vals.isUtf8B = true := by
-    rw [← isUtf8B_takeRest, ← pushScalar_takeRest ext vals _ vals' h, isUtf8B_takeRest]; exact hu
-  have hf : vals.isFlat = true := by
-    cases vals <;> simp [B.isUtf8B] at hu0 <;> rfl
-  rw [pushScalar_utf8_str ext (flat_WFB hf hw) hu0 h, hd hu0]
-  simp
+  refine ⟨fun hu => ?_, fun hr => ?_⟩
+  · have hu0 : vals.isUtf8B = true := by
+      rw [← isUtf8B_takeRest, ← pushScalar_takeRest ext vals _ vals' h, isUtf8B_takeRest]; exact hu
+    have hf : vals.isFlat = true := by
+      cases vals <;> simp [B.isUtf8B] at hu0 <;> rfl
+    rw [pushScalar_utf8_str ext (flat_WFB hf hw) hu0 h, hd.1 hu0]
+    simp
+  · have hr0 : vals.refusesStr = true := by
+      rw [← refusesStr_takeRest, ← pushScalar_takeRest ext vals _ vals' h, refusesStr_takeRest]; exact hr
+    exact (pushScalar_refusesStr ext hr0 h).elim
 
 /-- an integer call into a key builder (necessarily childless): one determined key row; if it is an integer, it is
 that integer -/
